@@ -397,6 +397,11 @@ func runBlocks(t *testing.T, f *blockFixture, rng *hx.Rng, p *hx.Proto, nTx int)
 			p.Count("kind:" + g.kind)
 			p.Emit(op, obs)
 			total++
+			if o.hasRcpt && o.contract != "" && !g.cosmos && g.ethTx != nil {
+				// the reported contract address against the Lean model of the CREATE address (RLP + Keccak-256 in Lean)
+				p.Emit(fmt.Sprintf("caddr %s %d", hex.EncodeToString(ws[g.sender].GetEthAddress().Bytes()), g.ethTx.Nonce()), strings.ToLower(strings.TrimPrefix(o.contract, "0x")))
+				p.Count("caddr-line")
+			}
 		}
 		// end of block: next base fee (ties the block gas meter to the fee market model) and re-sync check
 		ctx2 := c.ctx()
